@@ -70,6 +70,37 @@ class E:
     def sym(name):
         return E("sym", (name,), True)
 
+    @staticmethod
+    def csym(name):
+        """a complex symbol; `name` is printed verbatim as a Lean term of type ℂ"""
+        return E("csym", (name,), False)
+
+    # methods numpy's ufuncs look up on the elements of object arrays
+    def __abs__(self):
+        return E("abs", (self,), True)
+
+    def log10(self):
+        if not self.real:
+            raise Unsupported("UNSUPPORTED log10 of a complex value")
+        return E("log10", (self,), True)
+
+    def exp(self):
+        return E("exp", (self,), self.real)
+
+    def sqrt(self):
+        if not self.real:
+            raise Unsupported("UNSUPPORTED sqrt of a complex value")
+        return E("sqrt", (self,), True)
+
+    def cos(self):
+        return E("cos", (self,), self.real)
+
+    def sin(self):
+        return E("sin", (self,), self.real)
+
+    def angle(self):
+        return E("angle", (self,), True)
+
     # ---- data-dependent use is never guessed -----------------------------------------------------------------
     def _no(self, what):
         raise Unsupported(f"UNSUPPORTED data-dependent {what} of a symbolic value ({self.lean()})")
@@ -160,8 +191,14 @@ class E:
     # ---- numeric evaluation ---------------------------------------------------------------------------------
     def eval(self, env):
         op, a = self.op, self.args
-        if op == "sym":
+        if op in ("sym", "csym"):
             return env[a[0]]
+        if op == "abs":
+            return abs(a[0].eval(env))
+        if op == "angle":
+            return cmath.phase(a[0].eval(env))
+        if op == "log10":
+            return math.log10(a[0].eval(env))
         if op == "rat":
             return float(a[0])
         if op == "I":
@@ -210,6 +247,12 @@ class E:
             return f"({a[0]._lr()} ^ ({a[1]} : ℕ))"
         if op == "rpow":
             return f"({a[0]._lr()} ^ ({a[1]._lr()} : ℝ))"
+        if op == "abs":
+            return f"|{a[0]._lr()}|" if a[0].real else f"‖{a[0]._lc()}‖"
+        if op == "angle":
+            return f"(Complex.arg {a[0]._lc()})"
+        if op == "log10":
+            return f"(Real.logb 10 {a[0]._lr()})"
         fn = {"exp": "Real.exp", "sqrt": "Real.sqrt", "cos": "Real.cos", "sin": "Real.sin"}[op]
         return f"({fn} {a[0]._lr()})"
 
@@ -220,6 +263,8 @@ class E:
         op, a = self.op, self.args
         if op == "I":
             return "Complex.I"
+        if op == "csym":
+            return a[0]
         if op == "neg":
             return f"(-{a[0]._lc()})"
         if op == "conj":
@@ -236,7 +281,7 @@ class E:
 
     def symbols(self, acc=None):
         acc = set() if acc is None else acc
-        if self.op == "sym":
+        if self.op in ("sym", "csym"):
             acc.add(self.args[0])
         else:
             for x in self.args:
